@@ -17,7 +17,7 @@ use std::sync::atomic::{AtomicUsize, Ordering};
 use std::sync::mpsc::{channel, Receiver, Sender};
 use std::sync::Arc;
 
-use chrono::{DateTime, Local};
+use chrono::{DateTime, FixedOffset, Local};
 use console::Term;
 use crossbeam_utils::thread;
 use indexmap::IndexMap;
@@ -1313,8 +1313,16 @@ pub fn write_report_at(
         (res.0 + count, res.1 + g.file_len * count as u64)
     });
 
+    // The report formats record the UTC offset in whole minutes. An offset with a seconds part
+    // (custom or historical time zones) would shift the instant read back from the report,
+    // so such a timestamp is recorded in UTC.
+    let offset = if now.offset().local_minus_utc() % 60 == 0 {
+        *now.offset()
+    } else {
+        FixedOffset::east_opt(0).unwrap()
+    };
     let header = ReportHeader {
-        timestamp: DateTime::from_naive_utc_and_offset(now.naive_utc(), *now.offset()),
+        timestamp: DateTime::from_naive_utc_and_offset(now.naive_utc(), offset),
         version: env!("CARGO_PKG_VERSION").to_owned(),
         command: args_os().map(Arg::from).collect(),
         base_dir: config.base_dir.clone(),
